@@ -313,7 +313,7 @@ func newWorld(sc *scenario, img, bOld, bNew *built, scratch string) (*world, err
 	fb := !feat.ReferrersAPI
 	srcDir := filepath.Join(scratch, "src")
 	outDir := filepath.Join(scratch, "out")
-	baseDir := filepath.Join(scratch, "base")
+	baseDir := sc.baseDir
 	srcIsDir := strings.HasPrefix(sc.Place, "dir")
 	if srcIsDir {
 		if err := putDir(srcDir, img, srcTag); err != nil {
